@@ -106,10 +106,25 @@ func runVM(c J) J {
 	var callable yae.Callable
 	var cerr error
 	var pan interface{}
-	func() {
-		defer func() { pan = recover() }()
-		callable, cerr = ex.Compile(src, tenv())
-	}()
+	big := c["big"] == true
+	if big {
+		// a program at the limit of the encoding: built as a tree (lexing 50 000 characters takes the lexer a minute),
+		// compiled, and only its bytecode exported -- it is not run
+		delete(obs, "src")
+		func() {
+			defer func() {
+				if r := recover(); r != nil {
+					cerr = fmt.Errorf("%v", r)
+				}
+			}()
+			_ = ex.CompileExpr(astFromJ(e), tenv())
+		}()
+	} else {
+		func() {
+			defer func() { pan = recover() }()
+			callable, cerr = ex.Compile(src, tenv())
+		}()
+	}
 	if pan != nil {
 		obs["acc"] = false
 		obs["class"] = "compile-panic"
@@ -132,6 +147,9 @@ func runVM(c J) J {
 	}
 	obs["code"] = bytesJ(bc.Code())
 	obs["pool"] = pool
+	if big {
+		return obs
+	}
 
 	trace := A{}
 	vm.StepHook = func(b *vm.Bytecode, pc int, op byte, sp int) {
